@@ -10,7 +10,7 @@ def run(c):
     c.outside += ['texts with more than 3 arbitrary characters (plus fixed context)', 'stack exhaustion on deeply nested input (recursion depth is linear in nesting; unbounded depth is not decided)']
     c.run_m('h_c10_intops', expect_checks=(1004,), expect_cover=(1001,), only={1004}, bounds={'x % y': 'any i64 pair incl. y = 0 and i64::MIN % -1'})
     c.run_m('h_c11_alias', expect_checks=(1101,), expect_cover=(1101,), bounds={'expressions': '10 with aliasing operands (a = a, a ?= a, arr = arr, a = a = a, ...)', 'a': 'any i64'})
-    c.run_m('h_c11_texts', expect_checks=(1120,), expect_cover=(1120,), bounds={'texts': '24 malformed / extreme texts'})
+    c.run_m('h_c11_texts', expect_checks=(1120,), expect_cover=(1120,), bounds={'texts': '30 malformed / extreme texts (incl. negative and out-of-range indices)'})
     c.run_m('h_c11_lex2', expect_checks=(1110,), expect_cover=(1110,), bounds={'text': '2 arbitrary Unicode chars in 3 contexts'}, diff_samples=4)
     if c.tier == 'thorough':
         c.run_m('h_c11_lex3', expect_checks=(1110,), expect_cover=(1110,), bounds={'text': '3 arbitrary Unicode chars in 3 contexts'}, diff_samples=4, time_cap=3000)
